@@ -1,5 +1,6 @@
 import Chrono.Drv.Util
 import Chrono.Model.Round
+import Chrono.Model.RoundDT
 import Chrono.Spec.RoundSpec
 namespace Chrono.Drv.Round
 open Chrono Chrono.M Chrono.M.Round Chrono.Drv
@@ -25,6 +26,44 @@ def onDt (op : Op) (args : List String) : String :=
     | .ok e => showRR e
   | _ => bad
 
+def showErr : RoundingError → String
+  | .DurationExceedsTimestamp => "err DurationExceedsTimestamp"
+  | .DurationExceedsLimit => "err DurationExceedsLimit"
+  | .TimestampExceedsLimit => "err TimestampExceedsLimit"
+
+def showDT (x : NaiveDT) : String := s!"{x.date.yof} {x.time.secs} {x.time.frac}"
+
+/-- value level, `NaiveDateTime`: packed date word, seconds of day, nanosecond field, duration -/
+def onNaive (op : Op) (args : List String) : String :=
+  match ints? args with
+  | some [y, s, f, ds, dn] =>
+    match naive_duration op ⟨⟨y⟩, ⟨s, f⟩⟩ ⟨ds, dn⟩ with
+    | .panic => "panic"
+    | .ok (.ok v) => s!"ok {showDT v}"
+    | .ok (.err e) => showErr e
+  | _ => bad
+
+/-- value level, `DateTime<FixedOffset>`: UTC reading as above, offset, duration -/
+def onZoned (op : Op) (args : List String) : String :=
+  match ints? args with
+  | some [y, s, f, o, ds, dn] =>
+    match zoned_duration op ⟨⟨⟨y⟩, ⟨s, f⟩⟩, o⟩ ⟨ds, dn⟩ with
+    | .panic => "panic"
+    | .ok (.ok v) => s!"ok {showDT v.utc} {v.off}"
+    | .ok (.err e) => showErr e
+  | _ => bad
+
+/-- value level, `SubsecRound`: `t` = NaiveTime `secs frac digits`, `n` = NaiveDateTime
+`yof secs frac digits`, `z` = DateTime<FixedOffset> `yof secs frac off digits` -/
+def onSub (round : Bool) (kind : String) (args : List String) : String :=
+  match kind, ints? args with
+  | "t", some [s, f, d] =>
+    showRes (fun t : Time => s!"{t.secs} {t.frac}") (time_subsecs round ⟨s, f⟩ d.toNat)
+  | "n", some [y, s, f, d] => showRes showDT (naive_subsecs round ⟨⟨y⟩, ⟨s, f⟩⟩ d.toNat)
+  | "z", some [y, s, f, o, d] =>
+    showRes (fun z : Zoned => s!"{showDT z.utc} {z.off}") (zoned_subsecs round ⟨⟨⟨y⟩, ⟨s, f⟩⟩, o⟩ d.toNat)
+  | _, _ => bad
+
 def onNs (op : Op) (stamp span : String) : String :=
   match optInt? stamp, optInt? span with
   | some st, some sp => showRes showRR (run op st sp)
@@ -36,6 +75,19 @@ def handle (op : String) (args : List String) : Option String :=
   | "rd.trunc", a => some (onDt .trunc a)
   | "rd.round", a => some (onDt .round a)
   | "rd.up", a => some (onDt .up a)
+  -- value level: the whole call, result = the returned value
+  | "rd.n.trunc", a => some (onNaive .trunc a)
+  | "rd.n.round", a => some (onNaive .round a)
+  | "rd.n.up", a => some (onNaive .up a)
+  | "rd.z.trunc", a => some (onZoned .trunc a)
+  | "rd.z.round", a => some (onZoned .round a)
+  | "rd.z.up", a => some (onZoned .up a)
+  | "rd.t.rsub", a => some (onSub true "t" a)
+  | "rd.t.tsub", a => some (onSub false "t" a)
+  | "rd.n.rsub", a => some (onSub true "n" a)
+  | "rd.n.tsub", a => some (onSub false "n" a)
+  | "rd.z.rsub", a => some (onSub true "z" a)
+  | "rd.z.tsub", a => some (onSub false "z" a)
   -- integer level: stamp|none span|none
   | "rd.ns.trunc", [s, p] => some (onNs .trunc s p)
   | "rd.ns.round", [s, p] => some (onNs .round s p)
